@@ -104,6 +104,31 @@ class Ctx:
         self.cov["model_runs"].append(entry)
         return r
 
+    def liveness(self, module, unfair_control=True, **kw):
+        """<module>_live.cfg: under weak fairness of Next every behaviour of the model halts (PROPERTY Halts of FairSpec).
+        Control: without the fairness conjunct (SPECIFICATION Spec) the same property must be violated by stuttering --
+        the property is about the model's steps, not vacuously true."""
+        cfg = module + "_live.cfg"
+        r = self.model_check(module, cfg, note="liveness: every behaviour halts under weak fairness of Next", **kw)
+        if unfair_control:
+            import tempfile
+            from .tlc import SPEC_DIR
+            txt = open(os.path.join(SPEC_DIR, cfg)).read().replace("SPECIFICATION FairSpec", "SPECIFICATION Spec")
+            with tempfile.NamedTemporaryFile("w", suffix=".cfg", prefix="unfair_", delete=False) as fh:
+                fh.write(txt)
+                tmp = fh.name
+            try:
+                u = run_tlc(module, tmp, **kw)
+            finally:
+                os.unlink(tmp)
+            with _MC_LOCK:
+                if u.violated not in ("Halts", "Temporal properties were violated"):
+                    raise MachineryError("liveness control %s: Halts holds without fairness (%s / %s)" % (module, u.violated, u.error))
+                self.cov["model_runs"].append({"module": module, "cfg": cfg + " without fairness", "generated": u.generated, "distinct": u.distinct,
+                                               "depth": u.depth, "wall_s": round(u.wall_s, 1), "note": "control: Halts must fail by stuttering",
+                                               "expected_violation": "Halts"})
+        return r
+
     def require_actions(self, r: TlcResult, actions):
         dead = [a for a in actions if r.coverage.get(a, (0, 0))[1] == 0]
         if dead:
